@@ -72,6 +72,8 @@ def streams(ctx):
         ops.append("next_pow2 %d" % a)
         t = ctx.rng.choice([-5, 0, 1, 2, 7, 16, 64, 1000, 2**31 - 1])
         ops.append("ideal_threads %d %d %d" % (a - 3, t, ctx.rng.choice([-1, 0, 1, 100, 10**6, 10**7, b])))
+        ops.append("ideal_threads %d %d %d" % (2**63 - 1 - ctx.rng.choice([0, 1, 10**10 - 2, 10**10 - 1, 10**10, a % 10**11]), t,
+                                               ctx.rng.choice([1, 100, 10**6, 10**10, 2**62, 2**63 - 1])))
         lo, x, hi = [ctx.rng.randint(-10, 10) for _ in range(3)]
         ops.append("in_between %d %d %d" % (lo, x, hi))
 
